@@ -204,7 +204,10 @@ def r2_trailing_slash(ctx):
                     okall, why = False, "name from resolve_parent@bb%d is used without a None -> error conversion" % rpbb
                     break
                 cut = [e.key() for (edges, _inv) in gs for e in edges]
-                if s.bb in cfg.reachable(cfg.entry, cut_edges=cut):
+                # path-sensitive in the Result/Option variants: with the Some edges cut only the refusal is left, and the
+                # `?` that follows it (possibly after a merge, when the refusal sits in a helper) can only break out
+                from ..cfg import Edge
+                if s.bb in cfg.precise_reach([Edge(-1, cfg.entry, "entry")], cut_edges=cut):
                     okall, why = False, "sink reachable when the final component is missing (trailing slash)"
                     break
                 if not all(inv for (_e, inv) in gs):
